@@ -18,7 +18,13 @@ Record case_C09 := {
   c9_repair : ck;                                 (* q = Project(root); q.repair() *)
   c9_after : fs;                                  (* the tree after repair *)
   c9_check_after : ck;                            (* Project(root).check() *)
-  c9_open_after : list (str * result json)        (* q.open_job(id=i).statepoint(), in this order *)
+  c9_open_after : list (str * result json);       (* q.open_job(id=i).statepoint(), in this order *)
+  c9_reopen : list (str * list (result json));    (* j = Project(root).open_job(id=i) (fresh session each), then job.statepoint
+                                                     accessed several times through that SAME handle *)
+  c9_upd : option (option cache * result (option N))
+                                                  (* Some (k0, r): AFTER the damage and before everything above a fresh session
+                                                     called update_cache(): k0 = decoded cache file before that call (c9_fs holds
+                                                     the file as it is afterwards), r = what the call returned / raised *)
 }.
 
 Fixpoint dec_lookup (t : list (list N * (option json * dec))) (b : list N) : option (option json * dec) :=
@@ -49,6 +55,18 @@ Section INST9.
     | i :: r => let '(s1, x) := open_sp_by_id fr9 lb9 f s i in x :: m_open_after f s1 r
     end.
 
+  Definition m_reopen (n : nat) (i : str) : list (result json) := snd (open_sp_rep fr9 lb9 n (c9_fs c) fresh i).
+
+  (* the project as it was before the post-damage update_cache(): c9_fs with the earlier cache file *)
+  Definition fs_before_upd (k0 : option cache) : fs :=
+    let g := without_cache (c9_fs c) in
+    match k0 with
+    | None => g
+    | Some k => match write_file g CACHEP (cache_content k) with FOk g1 => g1 | FErr _ => g end
+    end.
+  Definition m_upd (k0 : option cache) : fs * sess * result (option N) :=
+    update_cache fr9 ls9 (fs_before_upd k0) fresh.
+
   (* ------------------------------------------------------------ comparison *)
   Definition ck_same (a b : ck) : bool :=
     match a, b with
@@ -61,6 +79,14 @@ Section INST9.
   Definition rj_same (a b : result json) : bool :=
     match a, b with
     | Ok x, Ok y => json_eqb (norm x) (norm y)
+    | Err e, Err e' => exn_eqb e e'
+    | _, _ => false
+    end.
+
+  Definition upd_same (a b : result (option N)) : bool :=
+    match a, b with
+    | Ok None, Ok None => true
+    | Ok (Some n), Ok (Some m) => N.eqb n m
     | Err e, Err e' => exn_eqb e e'
     | _, _ => false
     end.
@@ -93,7 +119,14 @@ Section INST9.
           && tree_same9 m_after (c9_after c)
           && ck_same m_check_after (c9_check_after c)
           && list_same rj_same (m_open_after m_after (snd (fst m_repair)) (map fst (c9_open_after c)))
-                       (map snd (c9_open_after c))).
+                       (map snd (c9_open_after c))
+          && forallb (fun p => list_same rj_same (m_reopen (length (snd p)) (fst p)) (snd p)) (c9_reopen c)
+          && match c9_upd c with
+             | None => true
+             | Some (k0, r) =>
+                 let '(f1, _, mr) := m_upd k0 in
+                 upd_same mr r && file_same (cache_file f1) (cache_file (c9_fs c))
+             end).
 
   (* ------------------------------------------------------------ the oracle (implementation side) *)
   (* independent classification of a job directory: file present, decodable, canonical hash = name *)
@@ -172,11 +205,31 @@ Section INST9.
   Definition sp_ok (p : str * result json) : bool :=
     match snd p with Ok sp => str_eqb (cid9 sp) (fst p) | Err _ => true end.
 
+  (* data follows the job: the documents and data files of a promised job that sits in a misnamed directory d are
+     found, byte-identical, under its TRUE id j after repair() (restoring the id by overwriting the state point file of
+     whatever directory carries the name j exchanges the jobs' documents) *)
+  Definition follows (jd : str * str) : bool :=
+    let '(j, d) := jd in
+    str_eqb j d ||
+    forallb (fun e => match fst e with
+                      | w :: i :: rel =>
+                          negb (str_eqb i d) ||
+                          match get (c9_after c) (w :: j :: rel) with
+                          | Some (File y) => bytes_eqb (c_bytes y) (snd e) | _ => false end
+                      | _ => true
+                      end) (non_sp_files (c9_fs c)).
+
+  (* never accepted through the persistent cache either: every entry of the cache file hashes to its key *)
+  Definition cache_sound9 : bool := forallb (fun p => str_eqb (cid9 (snd p)) (fst p)) cachefile9.
+
   (* the clauses of the oracle: (holds, tag of the open known finding that excuses a failure, 0 = none) *)
   Definition atoms : list (bool * N) :=
     [(ck_same (c9_check c) (expected_check (c9_fs c) (c9_listing c)), 0%N)]
     ++ map (fun p => (sp_ok p, 0%N)) (c9_open c)
-    ++ flat_map (fun jd => if promised jd then [(intact (c9_after c) (fst jd), excuse jd)] else []) (c9_truth c)
+    ++ flat_map (fun p => map (fun r => (sp_ok (fst p, r), 0%N)) (snd p)) (c9_reopen c)
+    ++ [(cache_sound9, 0%N)]
+    ++ flat_map (fun jd => if promised jd then [(intact (c9_after c) (fst jd), excuse jd); (follows jd, excuse jd)] else [])
+                (c9_truth c)
     ++ [(frame_ok, 0%N)]
     ++ [(ck_same (c9_check_after c) (expected_check (c9_after c) (job_dirs (c9_after c) WSP)), 0%N)]
     ++ map (fun p => (sp_ok p, 0%N)) (c9_open_after c).
